@@ -9,7 +9,7 @@
  *         schema node  <depth>:<module>:<name>:<V>:<flags>:<priv>[:@<module>:<name>=<hex>]*
  *         opaque node  <depth>:?<hex ns>:<name>:o<hex value>:<flags>:<priv>[:@<hex ns>:<name>=<hex>]*
  *         V = "=<hex canonical value>" (term) | "i" (inner) | "a<T><hex>" (anydata/anyxml; T = t data tree (hex of the
- *         xdump of the inner forest) s string x XML j JSON b LYB (bytes), "aN" = no value);
+ *         xdump of the inner forest) s string x XML j JSON b LYB (bytes), "aN<T>" = no value);
  *         flags = letters d (LYD_DEFAULT) w (LYD_WHEN_TRUE) n (LYD_NEW) e (LYD_EXT); priv = decimal value of node->priv
  *   xline t<k>#i                    the entry of one node alone (depth printed as 0)
  *   xpriv t<k>                      node->priv := DFS index + 1 for every node of the forest
@@ -35,10 +35,15 @@
 #undef main
 
 static void xdump_node(struct sbuf *o, const struct lyd_node *n, int depth, int recursive);
+static int xdump_noflags;     /* inside an anydata value: flags and private pointers are not part of the value */
 
 static void
 xdump_flags(struct sbuf *o, const struct lyd_node *n)
 {
+    if (xdump_noflags) {
+        sb_str(o, "::0");
+        return;
+    }
     sb_str(o, ":");
     if (n->flags & LYD_DEFAULT) {
         sb_str(o, "d");
@@ -71,14 +76,18 @@ xdump_one(struct sbuf *o, const struct lyd_node *n, int depth)
 
             sb_str(o, "a");
             if (!a->value.str) {
-                sb_str(o, "N");
+                /* no value; the value type still counts for lyd_compare_single() */
+                sb_fmt(o, "N%c", (a->value_type == LYD_ANYDATA_DATATREE) ? 't' : (a->value_type == LYD_ANYDATA_STRING) ? 's' :
+                        (a->value_type == LYD_ANYDATA_XML) ? 'x' : (a->value_type == LYD_ANYDATA_JSON) ? 'j' : 'b');
             } else {
                 switch (a->value_type) {
                 case LYD_ANYDATA_DATATREE: {
                     struct sbuf in = {0};
 
                     sb_str(o, "t");
+                    ++xdump_noflags;
                     xdump_node(&in, a->value.tree, 0, 1);
+                    --xdump_noflags;
                     sb_hex(o, in.s ? in.s : "", in.n);
                     free(in.s);
                     break;
